@@ -12,7 +12,7 @@ LEVEL = 'exploration'
 RULE = ('cases = (a) DM1 end to end: a sender CA with Dm1.start_send(callback, cycle) whose callback returns, per cycle, fresh lamp states and 1..400 '
         'trouble codes (first code tagged with the cycle number), Dm1 subscribers on 1-2 other stacks (plus a subscriber that was unsubscribed again), in 40 % of the cases a second independent DM1 sender on a third stack, either data link layer (single frame, BAM, '
         'FD Multi-PG <= 14 codes, FD BAM), SPN/FMI/OC on boundaries (0, 1, 0xFFFF, 0x10000, 0x7FFFF, 31, 127) and random, lamp combinations from all '
-        '5^4, cycle times above the transfer time, stop_send after 2-5 cycles then 3 more cycle times of observation, in 40 % of the cases followed by a second start_send with another cycle time and a second stop_send; oracle: subscriber arguments '
+        '5^4, cycle times above the transfer time (in a quarter of the BAM cases below it: cycles may then be skipped but every DM1 that arrives must equal one supplied cycle, in order), stop_send after 2-5 cycles then 3 more cycle times of observation, in 40 % of the cases followed by a second start_send with another cycle time and a second stop_send; oracle: subscriber arguments '
         'equal what the callback returned for that cycle, in order; the DM1 payload reassembled from the bus by the independent sniffer equals the '
         'reference J1939-73 encoding; no DM1 frame after stop_send returned; (b) DTC codec: DTC(spn,fmi,oc).dtc and DTC(dtc=..) against the '
         'reference bit positions over boundary + random values; (c) DM22 requests (active / previously active) over boundary + random SPN/FMI: '
@@ -20,7 +20,7 @@ RULE = ('cases = (a) DM1 end to end: a sender CA with Dm1.start_send(callback, c
 ASSUMPTIONS = ['J1939-73 layouts as coded in ref.codec (SPN low 16 bits in bytes 1-2, SPN bits 18..16 in the three MSBs of byte 3, FMI five LSBs, '
                'CM bit + 7-bit OC in byte 4; lamp status/flash two bits per lamp, PL lowest)', 'lamp keys the callback omits are sent as OFF']
 MIN_OBS = {'dm1_cycles_compared': {'quick': 500, 'thorough': 15000}, 'dtcs_compared': {'quick': 20000, 'thorough': 600000},
-           'stop_observed': {'quick': 450, 'thorough': 7000}, 'dm22_frames': {'quick': 2000, 'thorough': 60000}, 'dtc_codec_values': {'quick': 20000, 'thorough': 500000},
+           'stop_observed': {'quick': 450, 'thorough': 7000}, 'overrun_cases': {'quick': 30, 'thorough': 500}, 'dm22_frames': {'quick': 2000, 'thorough': 60000}, 'dtc_codec_values': {'quick': 20000, 'thorough': 500000},
            'lamp_combinations_max': 1}
 
 SPN_B = [0, 1, 0xFF, 0x100, 0xFFFF, 0x10000, 0x1FFFF, 0x20000, 0x3FFFF, 0x40000, 0x7FFFF, 0x7ABCD, 0x54321]
@@ -120,6 +120,12 @@ def run_dm1(case):
         dur = 0.0 if size <= 8 else ((size + 6) // 7 + 1) * 0.0502
     cycle = round(dur + rng.choice([0.05, 0.1, 0.3, 1.0]), 3)
     ncycles = rng.randint(2, 5)
+    # overrun: the cycle time is shorter than the transfer, so a cycle comes due while the previous DM1 is still on its way.  The stack may then
+    # skip cycles (one BAM per source at a time), but whatever arrives must still be exactly what the callback supplied for ONE cycle, in order
+    overrun = dur > 0.2 and rng.random() < 0.25
+    if overrun:
+        cycle = max(0.03, round(dur * rng.choice([0.3, 0.6, 0.9]), 3))
+        ncycles = rng.randint(3, 6)
     sent = []
     keys = ['pl', 'awl', 'rsl', 'mil']
 
@@ -175,7 +181,7 @@ def run_dm1(case):
         t_end = t_stop2 + 3 * cycle2 + dur + 0.05
         restart.update(cycle=cycle2, n=n2c)
     W.run(t_end)
-    obs = dict(dm1_cycles_compared=0, dtcs_compared=0, stop_observed=0, dm22_frames=0, dtc_codec_values=0, lamp_combinations_max=len(set(tuple(x) for x in case['lamps'])))
+    obs = dict(dm1_cycles_compared=0, dtcs_compared=0, stop_observed=0, overrun_cases=0, dm22_frames=0, dtc_codec_values=0, lamp_combinations_max=len(set(tuple(x) for x in case['lamps'])))
     M.m_live(viol, W, layer)
     if stopped.get('exc'):
         viol.add('stop_raised', 'stop_send raised %s' % stopped['exc'], **tag)
@@ -209,6 +215,22 @@ def run_dm1(case):
         if s2_addr is not None and len(other) < len(sent2) - 1:
             viol.add('dm1_other_sender', 'subscriber %d got %d of %d DM1 of the second sender' % (i, len(other), len(sent2)), how='missing', **tag)
         rec = [r for r in got[i] if r[1] == s_addr]
+        if overrun:
+            obs['overrun_cases'] = 1
+            idx = 0
+            for r in rec:
+                k = next((k for k in range(idx, len(sent)) if (r[2], r[3]) == (sent[k][1], sent[k][2])), None)
+                obs['dm1_cycles_compared'] += 1
+                obs['dtcs_compared'] += len(r[3])
+                if k is None:
+                    tagv = r[3][0]['oc'] if r[3] else None
+                    viol.add('dm1_dtcs', 'overrun (cycle %.3f s < transfer %.3f s): subscriber %d got a DM1 (%d codes, first code tagged cycle %s) that equals no cycle the callback supplied from #%d on'
+                             % (cycle, dur, i, len(r[3]), tagv, idx), how='mixed', **tag)
+                    break
+                idx = k + 1
+            if sent and not rec:
+                viol.add('dm1_delivery_count', 'overrun: subscriber %d got no DM1 at all for %d cycles' % (i, len(sent)), how='missing', **tag)
+            continue
         if len(rec) != len(sent):
             viol.add('dm1_delivery_count', 'subscriber %d got %d DM1 notifications for %d cycles (ndtc %d)' % (i, len(rec), len(sent), nd),
                      how='missing' if len(rec) < len(sent) else 'extra', **tag)
@@ -241,7 +263,18 @@ def run_dm1(case):
         if s.pgn == C.PGN_DM1:
             wire.append((s.t_open, s.payload()))
     wire.sort(key=lambda x: x[0])
-    if len(wire) != len(sent):
+    if overrun:
+        idx = 0
+        encs = [C.dm1_payload(s[1], s[2]) for s in sent]
+        for (t, payload) in wire:
+            k = next((k for k in range(idx, len(encs)) if encs[k] == payload), None)
+            if k is None:
+                viol.add('dm1_wire', 'overrun (cycle %.3f s < transfer %.3f s): the DM1 that started on the bus at %.3f (%s) is the J1939-73 encoding of no cycle the callback supplied from #%d on'
+                         % (cycle, dur, t, 'incomplete' if payload is None else '%d bytes' % len(payload), idx), how='mixed', **tag)
+                break
+            idx = k + 1
+        wire = []
+    elif len(wire) != len(sent):
         viol.add('dm1_wire_count', '%d DM1 messages on the bus for %d cycles' % (len(wire), len(sent)), **tag)
     for k, ((t, payload), s) in enumerate(zip(wire, sent)):
         want = C.dm1_payload(s[1], s[2])
@@ -271,7 +304,7 @@ def run_dtc(case):
     rng = random.Random(case['seed'])
     viol = M.Violations()
     tag = dict(layer='codec')
-    obs = dict(dm1_cycles_compared=0, dtcs_compared=0, stop_observed=0, dm22_frames=0, dtc_codec_values=0)
+    obs = dict(dm1_cycles_compared=0, dtcs_compared=0, stop_observed=0, overrun_cases=0, dm22_frames=0, dtc_codec_values=0)
     vals = [(s, f, o) for s in SPN_B for f in FMI_B for o in OC_B]
     vals += [(rng.randrange(1 << 19), rng.randrange(32), rng.randrange(128)) for _ in range(case['n'])]
     for (spn, fmi, oc) in vals:
@@ -299,7 +332,7 @@ def run_dm22(case):
     sa = rng.randrange(2, 120)
     ca = W.ca(S, sa, identity_number=1)
     dm22 = j.Dm22(ca)
-    obs = dict(dm1_cycles_compared=0, dtcs_compared=0, stop_observed=0, dm22_frames=0, dtc_codec_values=0)
+    obs = dict(dm1_cycles_compared=0, dtcs_compared=0, stop_observed=0, overrun_cases=0, dm22_frames=0, dtc_codec_values=0)
     vals = [(s, f) for s in SPN_B for f in FMI_B] + [(rng.randrange(1 << 19), rng.randrange(32)) for _ in range(case['n'])]
     last = None
     for (spn, fmi) in vals:
